@@ -130,6 +130,10 @@ func c05Make(c *core.Ctx, r *gen.Rand, maxVal int) []byte {
 
 		return nil
 	}
+	if m.Contains(stun.AttrMessageIntegrity) {
+		// an integrity check under a wrong key fails, and must leave the message as it was
+		_ = stun.MessageIntegrity("definitely not the key").Check(m)
+	}
 	if err := stun.Fingerprint.Check(m); err != nil {
 		c.Violate("fingerprinted-does-not-verify", "fingerprinted-does-not-verify", map[string]interface{}{"raw_hex": core.Hex(m.Raw), "err": err.Error()})
 
@@ -259,7 +263,33 @@ func c05(c *core.Ctx) {
 				}
 			}
 		}
+		// the LAST FINGERPRINT correct while an earlier one is not (only the first one counts)
+		if len(rm.TLVs) > 0 && r.Chance(1, 3) {
+			last := rm.TLVs[len(rm.TLVs)-1]
+			if last.Type == 0x8028 && last.Len == 4 && last.Off+4+0 <= len(wire) && len(wire) == last.Off+4 {
+				v := ref.FingerprintValue(wire[:len(wire)-8])
+				wire[last.Off], wire[last.Off+1], wire[last.Off+2], wire[last.Off+3] = byte(v>>24), byte(v>>16), byte(v>>8), byte(v)
+				c.Count("last_fingerprint_correct", 1)
+			}
+		}
 		c.Distinct(gen.HashBytes(wire))
 		c05Judge(c, wire, "arbitrary", false)
+	})
+	// (c2) near misses of the value: bare CRC without the XOR, XOR with neighbouring constants, byte-swapped
+	c.Section("value-near-misses", c.N(300, 10000), func(_ int64, r *gen.Rand) {
+		wire := c05Make(c, r, 60)
+		if wire == nil {
+			return
+		}
+		crc := ref.CRC32(wire[:len(wire)-8])
+		for k, v := range []uint32{crc, crc ^ 0x5354554f, crc ^ 0x4e555453, ^(crc ^ 0x5354554e), (crc ^ 0x5354554e) + 1,
+			(crc^0x5354554e)<<8 | (crc^0x5354554e)>>24, 0, 0x5354554e} {
+			f := append([]byte(nil), wire...)
+			n := len(f)
+			f[n-4], f[n-3], f[n-2], f[n-1] = byte(v>>24), byte(v>>16), byte(v>>8), byte(v)
+			c.Count("near_miss_values", 1)
+			c05Judge(c, f, fmt.Sprintf("near-miss-%d", k), false)
+		}
+		c.Distinct(gen.HashBytes(wire))
 	})
 }
